@@ -989,6 +989,15 @@ def gen_twopath(seed: int, tier: str = "quick") -> Dict[str, Any]:
     if rng.random() < 0.3:
         # a consumer of Y outside, or a feedback from Y into the loop over a shifted connection
         conns.append({"src": 2, "se": 0, "dst": 0, "de": 1, "pairs": [["e_out", "t_in"]], "shift": 1, "weak": False})
+    if rng.random() < 0.5:
+        # a self-scheduled consumer of Y (waiting to step while the loop iterates)
+        W = {"sid": "W", "type": "time-based", "group": rng.choice([0, 1, 1]), "n_ent": 1, "meta_style": 0,
+             "transport": pick_weighted(rng, TRANSPORT_MIXES["mixed"]),
+             "beh": {"bseed": rng.randrange(1 << 30), "step_sizes": [rng.choice([1, 1, 1, 2])]}}
+        sims.append(W)
+        Y["beh"]["p_out"] = rng.choice([0.5, 1.0])
+        conns.append({"src": 2, "se": 0, "dst": len(sims) - 1, "de": 0, "pairs": [["e_out", "m_in"]],
+                      "shift": 0, "weak": False})
     cfg = {"cache": rng.random() < 0.5, "lazy": rng.random() < 0.6, "debug": False, "mli": 8,
            "start_seed": rng.choice([None, rng.randrange(1 << 30)]),
            "connect_seed": rng.choice([None, rng.randrange(1 << 30)]),
